@@ -510,6 +510,34 @@ def gen_idle(seed, i):
     steps += [{"op": "settle", "n": 12}, {"op": "closeall"}, {"op": "drain", "n": 70}]
     return {"name": f"idle-{seed}-{i}", "steps": steps, "complete": True}
 
+def gen_par(seed, i):
+    """Replies for ONE binary connection produced by several goroutines at once: connection 1 has requests queued behind the
+    holds of k other connections; the holders unlock at the same moment (step `par`, one goroutine per connection) while the
+    client of connection 1 reads slowly, so the grant replies meet at connection 1's write path while one of them is inside a
+    slow write.  Every request must still draw exactly one reply with its own id."""
+    rng = random.Random(seed * 7919 + i * 104729 + 17)
+    k = rng.randint(3, 7)
+    steps = [{"op": "conn", "c": 1, "kind": "bin"}]
+    if rng.random() < 0.5:
+        steps.append({"op": "init", "c": 1, "cid": 1})
+    for j in range(k):
+        steps.append({"op": "conn", "c": 2 + j, "kind": "bin"})
+    rounds = rng.randint(1, 3)
+    base = 5000 + 100 * (i % 50)
+    for rd in range(rounds):
+        keys = [base + rd * 10 + j for j in range(k)]
+        for j in range(k):
+            steps.append({"op": "lock", "c": 2 + j, "key": keys[j], "lid": 100 + j, "to": 0, "ex": 60, "rc": 0, "cnt": 0})
+        for j in range(k):
+            steps.append({"op": "lock", "c": 1, "key": keys[j], "lid": 200 + j, "to": 40, "ex": rng.choice([30, 50]), "rc": 0, "cnt": 0})
+        steps.append({"op": "par", "c": 1, "stall": rng.choice([5, 20, 40]),
+                      "group": [{"op": "unlock", "c": 2 + j, "key": keys[j], "lid": 100 + j, "rc": 0} for j in rng.sample(range(k), k)]})
+        steps.append({"op": "snap"})
+        for j in range(k):
+            steps.append({"op": "unlock", "c": 1, "key": keys[j], "lid": 200 + j, "rc": 0})
+    steps += [{"op": "settle", "n": 12}, {"op": "closeall"}, {"op": "drain", "n": 70}]
+    return {"name": f"par-{seed}-{i}", "steps": steps, "complete": True}
+
 def directed():
     """Hand-shaped regression histories (each is also reachable by the generators), plus scenarios/sess_directed.json."""
     import os
